@@ -284,18 +284,19 @@ theorem GlueInv_specs (s : P2P) (gh gh' : Ghost) (h : GlueInv s gh) (hs : gh'.sp
     rw [hs]; exact h.top p hp hq
 
 /-- All local players' registrations. -/
-theorem registerFold_glue (t0 : TLState) (reqs : List Request) : ∀ (l : List Nat) (s s' : P2P) (gh : Ghost),
+theorem registerFold_glueX (t0 : TLState) (reqs : List Request) : ∀ (l : List Nat) (s s' : P2P) (gh : Ghost),
     SessInv s gh t0 reqs → GlueInv s gh → (∀ x ∈ l, x ∈ s.localPlayerHandles) → l.foldlM P2P.registerOne s = .ok s' →
     ∃ gh', SessInv s' gh' t0 reqs ∧ GlueInv s' gh' ∧ RegKeeps s s' gh gh' ∧
       s'.lastSentOutgoingInputFrame = s.lastSentOutgoingInputFrame ∧
-      ∀ p, PrefixOf (gh.specs p).vals (gh'.specs p).vals := by
+      (∀ p, PrefixOf (gh.specs p).vals (gh'.specs p).vals) ∧ ∀ p, p ∉ l → gh'.specs p = gh.specs p := by
   intro l
   induction l with
   | nil =>
     intro s s' gh h hg _ hf
     simp only [List.foldlM_nil] at hf
     have := pure_ok hf; subst this
-    exact ⟨gh, h, hg, ⟨rfl, rfl, rfl, rfl, rfl, rfl, rfl, rfl, fun _ => Nat.le_refl _⟩, rfl, fun _ => PrefixOf.refl _⟩
+    exact ⟨gh, h, hg, ⟨rfl, rfl, rfl, rfl, rfl, rfl, rfl, rfl, fun _ => Nat.le_refl _⟩, rfl, fun _ => PrefixOf.refl _,
+      fun _ _ => rfl⟩
   | cons a rest ih =>
     intro s s' gh h hg hl hf
     simp only [List.foldlM_cons] at hf
@@ -308,16 +309,29 @@ theorem registerFold_glue (t0 : TLState) (reqs : List Request) : ∀ (l : List N
     subst hpe
     have hg1' : GlueInv s1 gh1 := GlueInv_specs s1 _ gh1 hg1 (by rw [hspecs]; rfl)
     have hlp : s1.localPlayerHandles = s.localPlayerHandles := by unfold P2P.localPlayerHandles; rw [hh1]
-    obtain ⟨gh', hinv', hg', hk, hls, hpre⟩ := ih s1 s' gh1 hinv1 hg1'
+    obtain ⟨gh', hinv', hg', hk, hls, hpre, hoth⟩ := ih s1 s' gh1 hinv1 hg1'
       (fun x hx => by rw [hlp]; exact hl x (List.mem_cons_of_mem _ hx)) hf
     refine ⟨gh', hinv', hg', ⟨hk.T.trans hT1, hk.cur.trans hc1, hk.handles.trans hh1, hk.pred.trans hp1, hk.sparse.trans hsp1,
       hk.maxPrediction.trans hm1, hk.nq.trans hn1, hk.lastConfirmed.trans hlc1,
-      fun p => Nat.le_trans (hgr1 p) (hk.grows p)⟩, hls.trans hls1, ?_⟩
-    intro p
-    have h1p : PrefixOf (gh.specs p).vals (gh1.specs p).vals := by
-      have := ghAfter_prefix gh a pi' h0 p
-      rw [hspecs]; exact this
-    exact h1p.trans (hpre p)
+      fun p => Nat.le_trans (hgr1 p) (hk.grows p)⟩, hls.trans hls1, ?_, ?_⟩
+    · intro p
+      have h1p : PrefixOf (gh.specs p).vals (gh1.specs p).vals := by
+        have := ghAfter_prefix gh a pi' h0 p
+        rw [hspecs]; exact this
+      exact h1p.trans (hpre p)
+    · intro p hp
+      have hpa : p ≠ a := fun e => hp (e ▸ List.mem_cons_self)
+      rw [hoth p (fun hx => hp (List.mem_cons_of_mem _ hx)), hspecs]
+      simp only [hpa, if_false]
+
+theorem registerFold_glue (t0 : TLState) (reqs : List Request) (l : List Nat) (s s' : P2P) (gh : Ghost)
+    (h : SessInv s gh t0 reqs) (hg : GlueInv s gh) (hl : ∀ x ∈ l, x ∈ s.localPlayerHandles)
+    (hf : l.foldlM P2P.registerOne s = .ok s') :
+    ∃ gh', SessInv s' gh' t0 reqs ∧ GlueInv s' gh' ∧ RegKeeps s s' gh gh' ∧
+      s'.lastSentOutgoingInputFrame = s.lastSentOutgoingInputFrame ∧
+      ∀ p, PrefixOf (gh.specs p).vals (gh'.specs p).vals := by
+  obtain ⟨gh', a, b, c, d, e, _⟩ := registerFold_glueX t0 reqs l s s' gh h hg hl hf
+  exact ⟨gh', a, b, c, d, e⟩
 
 /-- The frames handed to the remote endpoints by one call, in order: each is the next frame after
 the last one sent, and carries — for the local players it names — the inputs their queues hold. -/
@@ -415,14 +429,15 @@ theorem sendReadyLoop_glue (gh : Ghost) (now : Nat) : ∀ (fuel : Nat) (s s' : P
 
 /-- `register_local_inputs`: every local player's pending input goes into its queue and into the
 outgoing queue; then the frames that are complete are handed to the remotes. -/
-theorem registerLocalInputs_glue (s s' : P2P) (gh : Ghost) (t0 : TLState) (reqs : List Request) (now : Nat)
+theorem registerLocalInputs_glueX (s s' : P2P) (gh : Ghost) (t0 : TLState) (reqs : List Request) (now : Nat)
     (h : SessInv s gh t0 reqs) (hg : GlueInv s gh) (hreg : s.registerLocalInputs now = .ok s') :
     ∃ (gh' : Ghost) (s1 : P2P), SessInv s' gh' t0 reqs ∧ GlueInv s' gh' ∧ RegKeeps s s' gh gh' ∧
       s1.lastSentOutgoingInputFrame = s.lastSentOutgoingInputFrame ∧ Sends gh' now s1 s' ∧
-      ∀ p, PrefixOf (gh.specs p).vals (gh'.specs p).vals := by
+      (∀ p, PrefixOf (gh.specs p).vals (gh'.specs p).vals) ∧
+      ∀ p, p ∉ s.localPlayerHandles → gh'.specs p = gh.specs p := by
   unfold P2P.registerLocalInputs at hreg
   obtain ⟨s1, hfold, hsend⟩ := bind_ok hreg
-  obtain ⟨gh', hinv1, hg1, hk, hls, hpre⟩ := registerFold_glue t0 reqs _ s s1 gh h hg (fun x hx => hx) hfold
+  obtain ⟨gh', hinv1, hg1, hk, hls, hpre, hoth⟩ := registerFold_glueX t0 reqs _ s s1 gh h hg (fun x hx => hx) hfold
   have hc := P2P.sendReady_sameCore _ _ _ hsend
   have hinv' := SessInv_congr s1 s' gh' t0 reqs hinv1 hc.pred hc.sync hc.statuses hc.handles
   have hkeep : RegKeeps s s' gh gh' :=
@@ -432,13 +447,21 @@ theorem registerLocalInputs_glue (s s' : P2P) (gh : Ghost) (t0 : TLState) (reqs 
   unfold P2P.sendReadyOutgoingInputsToRemotes at hsend
   split at hsend
   · have := pure_ok hsend; subst this
-    exact ⟨gh', s1, hinv', hg1, hkeep, hls, Sends.done _, hpre⟩
+    exact ⟨gh', s1, hinv', hg1, hkeep, hls, Sends.done _, hpre, hoth⟩
   · simp only at hsend
     split at hsend
     · have := pure_ok hsend; subst this
-      exact ⟨gh', s1, hinv', hg1, hkeep, hls, Sends.done _, hpre⟩
+      exact ⟨gh', s1, hinv', hg1, hkeep, hls, Sends.done _, hpre, hoth⟩
     · obtain ⟨hs, hg', _⟩ := sendReadyLoop_glue gh' now _ s1 s' hg1 hsend
-      exact ⟨gh', s1, hinv', hg', hkeep, hls, hs, hpre⟩
+      exact ⟨gh', s1, hinv', hg', hkeep, hls, hs, hpre, hoth⟩
+
+theorem registerLocalInputs_glue (s s' : P2P) (gh : Ghost) (t0 : TLState) (reqs : List Request) (now : Nat)
+    (h : SessInv s gh t0 reqs) (hg : GlueInv s gh) (hreg : s.registerLocalInputs now = .ok s') :
+    ∃ (gh' : Ghost) (s1 : P2P), SessInv s' gh' t0 reqs ∧ GlueInv s' gh' ∧ RegKeeps s s' gh gh' ∧
+      s1.lastSentOutgoingInputFrame = s.lastSentOutgoingInputFrame ∧ Sends gh' now s1 s' ∧
+      ∀ p, PrefixOf (gh.specs p).vals (gh'.specs p).vals := by
+  obtain ⟨gh', s1, a, b, c, d, e, f, _⟩ := registerLocalInputs_glueX s s' gh t0 reqs now h hg hreg
+  exact ⟨gh', s1, a, b, c, d, e, f⟩
 
 /-! ### the rest of a call, and remote inputs, leave the outgoing queue alone -/
 
@@ -600,12 +623,13 @@ theorem GlueInv_transfer (s s' : P2P) (gh gh' : Ghost) (h : GlueInv s gh)
 /-- **One rollback-mode call, the remotes' side.** The only frames handed to the remote endpoints
 are those `register_local_inputs` sends (`Sends`): consecutive frames after the last one sent, each
 carrying the local players' own queue inputs. -/
-theorem rollbackTick_glue (s s' : P2P) (gh : Ghost) (t0 : TLState) (reqs reqs' : List Request) (now : Nat)
+theorem rollbackTick_glueX (s s' : P2P) (gh : Ghost) (t0 : TLState) (reqs reqs' : List Request) (now : Nat)
     (h : SessInv s gh t0 reqs) (hg : GlueInv s gh) (hadv : s.advanceRollbackFrame now reqs = .ok (s', reqs')) :
     ∃ (gh2 gh' : Ghost) (sA sB : P2P), SessInv s' gh' t0 reqs' ∧ GlueInv s' gh' ∧ gh'.specs = gh2.specs ∧
       (∀ p, PrefixOf (gh.specs p).vals (gh2.specs p).vals) ∧
       sA.lastSentOutgoingInputFrame = s.lastSentOutgoingInputFrame ∧ Sends gh2 now sA sB ∧
-      s'.lastSentOutgoingInputFrame = sB.lastSentOutgoingInputFrame := by
+      s'.lastSentOutgoingInputFrame = sB.lastSentOutgoingInputFrame ∧
+      (∀ p, p ∉ s.localPlayerHandles → gh'.specs p = gh.specs p) ∧ s'.handles = s.handles := by
   unfold P2P.advanceRollbackFrame at hadv
   obtain ⟨confirmed, hconf, hadv⟩ := bind_ok hadv
   obtain ⟨r1, hrs, hadv⟩ := bind_ok hadv
@@ -629,7 +653,7 @@ theorem rollbackTick_glue (s s' : P2P) (gh : Ghost) (t0 : TLState) (reqs reqs' :
     rw [h.tinv.sync.nq, ← hsettled.nq, ← hc2.sync]; exact hp
   obtain ⟨hinv3, _, _, hq3⟩ := setLastConfirmed_spec s2 sy3 gh1 t0 reqs1 confirmed hinv2 hle hset
   have hg3 : GlueInv ({ s2 with sync := sy3 } : P2P) gh1 := GlueInv_transfer s2 _ gh1 gh1 hg2 rfl rfl rfl hq3 rfl
-  obtain ⟨gh2, sA, hinv4, hg4, hk4, hlsA, hsends, hpre⟩ := registerLocalInputs_glue _ s4 gh1 t0 reqs1 now hinv3 hg3 hreg
+  obtain ⟨gh2, sA, hinv4, hg4, hk4, hlsA, hsends, hpre, hoth⟩ := registerLocalInputs_glueX _ s4 gh1 t0 reqs1 now hinv3 hg3 hreg
   obtain ⟨gh', hinv', hsp', hst', hh', _, _⟩ := rollbackGate_spec s4 s' gh2 t0 reqs1 reqs' hinv4 hgate
   obtain ⟨ho5, hl5⟩ := P2P.rollbackGate_out _ _ _ _ hgate
   have hq5 : s'.sync.queues.length = s4.sync.queues.length := by
@@ -637,7 +661,7 @@ theorem rollbackTick_glue (s s' : P2P) (gh : Ghost) (t0 : TLState) (reqs reqs' :
     have b := hinv4.tinv.sync.nq
     rw [← a, hst', b]
   have hg' : GlueInv s' gh' := GlueInv_transfer s4 s' gh2 gh' hg4 ho5 hh' hst' hq5 hsp'
-  refine ⟨gh2, gh', sA, s4, hinv', hg', hsp', ?_, ?_, hsends, hl5⟩
+  refine ⟨gh2, gh', sA, s4, hinv', hg', hsp', ?_, ?_, hsends, hl5, ?_, ?_⟩
   · intro p
     have := hpre p
     rw [hsettled.specs] at this
@@ -645,19 +669,38 @@ theorem rollbackTick_glue (s s' : P2P) (gh : Ghost) (t0 : TLState) (reqs reqs' :
   · rw [hlsA]
     show s2.lastSentOutgoingInputFrame = _
     rw [hl2, hl1]
+  · intro p hp
+    have hlp : ({ s2 with sync := sy3 } : P2P).localPlayerHandles = s.localPlayerHandles := by
+      unfold P2P.localPlayerHandles
+      show List.filterMap _ s2.handles = _
+      rw [hc2.handles, hsettled.rest.1]
+    rw [hsp', hoth p (by rw [hlp]; exact hp), hsettled.specs]
+  · rw [hh', hk4.handles]
+    show s2.handles = s.handles
+    rw [hc2.handles, hsettled.rest.1]
+
+theorem rollbackTick_glue (s s' : P2P) (gh : Ghost) (t0 : TLState) (reqs reqs' : List Request) (now : Nat)
+    (h : SessInv s gh t0 reqs) (hg : GlueInv s gh) (hadv : s.advanceRollbackFrame now reqs = .ok (s', reqs')) :
+    ∃ (gh2 gh' : Ghost) (sA sB : P2P), SessInv s' gh' t0 reqs' ∧ GlueInv s' gh' ∧ gh'.specs = gh2.specs ∧
+      (∀ p, PrefixOf (gh.specs p).vals (gh2.specs p).vals) ∧
+      sA.lastSentOutgoingInputFrame = s.lastSentOutgoingInputFrame ∧ Sends gh2 now sA sB ∧
+      s'.lastSentOutgoingInputFrame = sB.lastSentOutgoingInputFrame := by
+  obtain ⟨gh2, gh', sA, sB, a, b, c, d, e, f, g, _⟩ := rollbackTick_glueX s s' gh t0 reqs reqs' now h hg hadv
+  exact ⟨gh2, gh', sA, sB, a, b, c, d, e, f, g⟩
 
 /-- A remote input arrives: both invariants, and what happens to the streams. -/
-theorem glue_remoteInput (s s' : P2P) (gh : Ghost) (t : TLState) (now : Nat) (inp : PlayerInput) (player : Nat)
+theorem glue_remoteInputX (s s' : P2P) (gh : Ghost) (t : TLState) (now : Nat) (inp : PlayerInput) (player : Nat)
     (handles : List Nat) (addr : Nat) (hy : SessInv s gh t []) (hgy : GlueInv s gh)
     (hnl : player ∉ s.localPlayerHandles) (hf : 0 ≤ inp.frame)
     (hev : s.handleEventCore now (.input inp player) handles addr = .ok s') :
     ∃ gh', SessInv s' gh' t [] ∧ GlueInv s' gh' ∧ s'.sync.queues.length = s.sync.queues.length ∧
-      ∀ p, (gh.specs p).vals.length ≤ (gh'.specs p).vals.length := by
+      (∀ p, (gh.specs p).vals.length ≤ (gh'.specs p).vals.length) ∧ s'.handles = s.handles ∧
+      ∀ p, gh'.specs p = if p = player then ((gh.specs p).submit inp.frame inp.input).1 else gh.specs p := by
   obtain ⟨gh', h', _, _, hh, _, hsp⟩ := remoteInput_spec s s' gh t [] now inp player handles addr hy hnl hf hev
   obtain ⟨ho, _, hst⟩ := P2P.remoteInput_out s s' now inp player handles addr hev
   have hq := remoteInput_nq s s' now inp player handles addr hev
   have hlp : s'.localPlayerHandles = s.localPlayerHandles := by unfold P2P.localPlayerHandles; rw [hh]
-  refine ⟨gh', h', ⟨?_, ?_⟩, hq, ?_⟩
+  refine ⟨gh', h', ⟨?_, ?_⟩, hq, ?_, hh, hsp⟩
   · intro f m hl
     show 0 ≤ f ∧ ∀ x ∈ m, x.1 ∈ s'.localPlayerHandles ∧ _
     rw [ho] at hl
@@ -678,6 +721,15 @@ theorem glue_remoteInput (s s' : P2P) (gh : Ghost) (t : TLState) (now : Nat) (in
     by_cases hpp : p = player
     · rw [if_pos hpp]; exact (submit_facts (gh.specs p) inp.frame inp.input).1
     · rw [if_neg hpp]; exact Nat.le_refl _
+
+theorem glue_remoteInput (s s' : P2P) (gh : Ghost) (t : TLState) (now : Nat) (inp : PlayerInput) (player : Nat)
+    (handles : List Nat) (addr : Nat) (hy : SessInv s gh t []) (hgy : GlueInv s gh)
+    (hnl : player ∉ s.localPlayerHandles) (hf : 0 ≤ inp.frame)
+    (hev : s.handleEventCore now (.input inp player) handles addr = .ok s') :
+    ∃ gh', SessInv s' gh' t [] ∧ GlueInv s' gh' ∧ s'.sync.queues.length = s.sync.queues.length ∧
+      ∀ p, (gh.specs p).vals.length ≤ (gh'.specs p).vals.length := by
+  obtain ⟨gh', a, b, c, d, _⟩ := glue_remoteInputX s s' gh t now inp player handles addr hy hgy hnl hf hev
+  exact ⟨gh', a, b, c, d⟩
 
 theorem GlueInv_pending (s : P2P) (gh : Ghost) (l : List (Nat × PlayerInput)) (h : GlueInv s gh) :
     GlueInv { s with pendingLocalInputs := l } gh := ⟨h.out, h.top⟩
